@@ -22,7 +22,7 @@ RULE = (
     'against the identity function of the id in that row, ids increasing, hid[pinds]==phid, particle arrays in file order. non-trivial = distinct (id order, slabs, flags, chunking) '
     'cases whose ids are not already sorted across slabs'
 )
-ASSUMPTIONS = ['z_mock=0.5 (a "primary" redshift, particles loaded); at least one halo per staged chunk (the constructor takes min/max of the masses)']
+ASSUMPTIONS = ['z_mock=0.5 (a "primary" redshift, particles loaded) for 9 of 11 cases; every 11th case a secondary redshift (0.575/0.45/1.625: halo files only) and every 11th one with particle files that hold no particle; at least one halo per staged chunk (the constructor takes min/max of the masses)']
 
 MPART = 2.0e9
 
@@ -37,16 +37,15 @@ def fh(h, col, comp=0):
     return (np.asarray(h, dtype=np.float64) * 37.0 + base * 1000003.0 + comp * 0.25) / 1024.0
 
 
-def make_dir(rng, nslab, order, want_ranks, mt, halos_per_slab, scalar_vdev=False, physical=False, idbase=0):
+def make_dir(rng, nslab, order, want_ranks, mt, halos_per_slab, scalar_vdev=False, physical=False, idbase=0, z=0.5, no_particles=False):
     root = tempfile.mkdtemp(prefix='verif_hod_')
     sim = 'SimH'
-    z = 0.5
-    hdir = os.path.join(root, 'sims', sim, 'halos', 'z0.500', 'halo_info')
+    hdir = os.path.join(root, 'sims', sim, 'halos', 'z%4.3f' % z, 'halo_info')
     os.makedirs(hdir)
     header = dict(H0=67.0, BoxSize=2000.0, ParticleMassHMsun=MPART, VelZSpace_to_kms=1.3e5, SimName=sim)
     for s in range(nslab):
         write_asdf(os.path.join(hdir, f'halo_info_{s:03d}.asdf'), dict(header=header, data=dict(id=np.zeros(1, dtype=np.uint64))))
-    sub = os.path.join(root, 'subs', sim, 'z0.500')
+    sub = os.path.join(root, 'subs', sim, 'z%4.3f' % z)
     os.makedirs(sub)
     import h5py
 
@@ -110,6 +109,8 @@ def make_dir(rng, nslab, order, want_ranks, mt, halos_per_slab, scalar_vdev=Fals
                 h['v_L2com'][:, c] = ((hid * (0.4321 + 0.1 * c)) % 1.0) * 800.0 - 400.0
                 h['randoms_gaus_vrms'][:, c] = ((hid * (0.777 + 0.1 * c)) % 1.0) * 300.0 - 150.0
         P = int(rng.integers(0, 4 * max(H, 1))) if H else 0
+        if no_particles:
+            P = 0
         p = np.zeros(P, dtype=pdt)
         if P:
             host = rng.choice(hid, P)
@@ -149,7 +150,7 @@ def make_dir(rng, nslab, order, want_ranks, mt, halos_per_slab, scalar_vdev=Fals
         with h5py.File(pf, 'w') as f:
             f.create_dataset('particles', data=p)
         truth['slabs'].append(dict(h=h, p=p))
-    truth.update(sim=sim, sim_dir=os.path.join(root, 'sims'), subsample_dir=os.path.join(root, 'subs'), out=os.path.join(root, 'out'), halos_per_slab=halos_per_slab)
+    truth.update(sim=sim, sim_dir=os.path.join(root, 'sims'), subsample_dir=os.path.join(root, 'subs'), out=os.path.join(root, 'out'), halos_per_slab=halos_per_slab, z=z)
     return truth
 
 
@@ -184,7 +185,7 @@ def f32(x):
 
 
 def stage_and_check(run, AH, truth, flags, tracers, chunk, n_chunks, desc):
-    sim_params = dict(sim_name=truth['sim'], sim_dir=truth['sim_dir'], subsample_dir=truth['subsample_dir'], z_mock=0.5, output_dir=truth['out'])
+    sim_params = dict(sim_name=truth['sim'], sim_dir=truth['sim_dir'], subsample_dir=truth['subsample_dir'], z_mock=truth.get('z', 0.5), output_dir=truth['out'])
     HOD = dict(tracer_flags={t: (t in tracers) for t in ('LRG', 'ELG', 'QSO')}, want_rsd=True, LRG_params={}, ELG_params={}, QSO_params={}, **flags)
     run.progress(desc)
     run.ev()
@@ -259,6 +260,9 @@ def stage_and_check(run, AH, truth, flags, tracers, chunk, n_chunks, desc):
             return run.violation('staging-unwritten-rows', dict(column=col, **desc))
     # particles
     psrc = np.concatenate([s['p'] for s in sl]) if sl else None
+    if truth.get('z', 0.5) != 0.5:
+        psrc = psrc[:0]  # secondary redshift: the particle subsample is not staged
+    run.count('cases_without_staged_particles', int(len(psrc) == 0))
     if len(pd['phid']) != len(psrc):
         return run.violation('staging-particle-count', dict(got=len(pd['phid']), expected=len(psrc), **desc))
     if len(psrc):
@@ -308,7 +312,10 @@ def check(run):
             hps, order = [S] * nslab, 'decreasing_slabs'
         if k % 6 == 4:
             idbase = 1 << 60  # ids beyond 2^53 (still valid int64)
-        truth = make_dir(rng, nslab, order, flags['want_ranks'], mt, hps, scalar_vdev=scalar_vdev, idbase=idbase)
+        # no staged particles: a secondary redshift (the particle subsample is never opened) or particle files that hold nothing
+        zmock = [0.575, 0.45, 1.625][k // 11 % 3] if k % 11 == 3 else 0.5
+        nopart = k % 11 == 7
+        truth = make_dir(rng, nslab, order, flags['want_ranks'], mt, hps, scalar_vdev=scalar_vdev, idbase=idbase, z=zmock, no_particles=nopart)
         try:
             chunkings = [(-1, 1)]
             if nslab >= 2 and k % 3 == 0:
@@ -320,7 +327,7 @@ def check(run):
                 c = 0 if chunk == -1 else chunk
                 if c * n_jump >= nslab:
                     continue
-                desc = dict(case=k, nslab=nslab, order=order, halos_per_slab=truth['halos_per_slab'], chunk=chunk, n_chunks=nch, tracers=list(tracers), scalar_vdev=scalar_vdev, **flags)
+                desc = dict(case=k, nslab=nslab, order=order, halos_per_slab=truth['halos_per_slab'], chunk=chunk, n_chunks=nch, tracers=list(tracers), scalar_vdev=scalar_vdev, z_mock=zmock, empty_particle_files=nopart, **flags)
                 if k < 3:
                     run.sample(desc)
                 stage_and_check(run, AH, truth, flags, tracers, chunk, nch, desc)
